@@ -37,6 +37,11 @@ CHECKS = {
                     'handshake/binary boundary are explored with symbolic serials/flags.',
             'ref': 'DESIGN.md 2/C04', 'note': NOTE + ' Stream-view proxy (vf/streamview.py) stands in for bytes/struct in the '
                     'frame/step families.', 'technique': SYM + '; stream modelled by a symbolic-bounds proxy; one inductive step lemma'},
+    'C05': {'text': 'Decoder steps are counted by wrappers installed from the harness; the real unmarshal / parseMessage run on '
+                    'fully symbolic byte strings (10-14 bytes) under a hostile signature family, on valid messages with one byte '
+                    'replaced by a symbolic value (every position) and on every truncation; the solver shows the step budget '
+                    '(linear in input length for a fixed signature) is never exceeded and nothing but an Exception escapes.',
+            'ref': 'DESIGN.md 2/C05', 'note': NOTE, 'technique': SYM + '; liveness turned into a step-budget assertion'},
 }
 _TODO = 'check not built yet in this revision (planned, see DESIGN.md section 2)'
 NOT_APPLICABLE = {('C%02d' % i): _TODO for i in range(1, 21)}
